@@ -13,10 +13,12 @@ from .. import lib
 
 SRC = {
     "own_ctor": ("", "Tk(5)"), "own_make": ("", "tk_make()"), "own_sp": ("", "tk_make_sp()"), "own_up": ("", "tk_make_up()"),
+    "own_downcast": ("", "as_pd(make_pb_really_pd())"), "own_upcast": ("", "as_pb(make_pd_sp())"),
     "own_var": ("var o = Tk(5)", "o"), "own_vecelem": ("var sv = [Tk(5)]", "sv[0]"),
     "bor_tvtemp": ("", "make_tv()[0]"), "bor_holdtemp_inner": ("", "make_holder().inner()"), "bor_holdtemp_member": ("", "make_holder().member"),
     "bor_first_temp": ("", "first_of(make_tv())"),
     "bor_stv": ("", "mktv()[0]"), "bor_sholder_inner": ("", "mkh().inner()"), "bor_sholder_member": ("", "fun() { var h = Holder(); return h }().member"),
+    "bor_conv_ref": ("var cs = TkSrc()", "tk_ident(cs)"), "bor_conv_ptr": ("var cs = TkSrc()", "tk_ident_p(cs)"),
     "bor_tvvar": ("var tv = make_tv()", "tv[0]"), "bor_holdvar_inner": ("var hd = make_holder()", "hd.inner()"),
     "bor_holdvar_member": ("var hd = make_holder()", "hd.member"), "bor_first_var": ("var tv = make_tv()", "first_of(tv)"),
     "bor_rfor": ("var tv = make_tv(); var rf; for (x : tv) { rf := x; break }", "rf"),
@@ -37,9 +39,13 @@ BIND = {
     "attr_copy": ("var d = Dynamic_Object()", "d", "d.a = {h}", "d.a.get()"),
 }
 KNOWN_BY_SOURCE = {s: f"known:borrowed-reference-escape:{s}" for s in SRC if s.startswith("bor_")}
+# `k = f()` / push_back(f()) / `d.a = f()` where f returns const T & (or const T *): the result carries the return-value flag and is adopted
+# as it is instead of being copied - the "copy" is another bare reference.  Recorded finding, one entry per source.
+CLONING = ("copy", "push", "attr_copy")
+KNOWN_ADOPTED = {s: f"known:const-reference-return-adopted:{s}" for s in ("bor_conv_ref", "bor_conv_ptr")}
 
 
-HELPERS = "def mktv() { var t = make_tv(); return t }; def mkh() { var h = Holder(); return h }; "
+HELPERS = "def as_pd(PD d) { return d }; def as_pb(PB b) { return b }; def mktv() { var t = make_tv(); return t }; def mkh() { var h = Holder(); return h }; "
 
 
 def script(p):
@@ -106,15 +112,16 @@ def run(ck, tier, seed):
             if live != 0 or con != des:
                 ck.violation("leak:" + name, f"[{parser}] after the engine is gone {live} instrumented objects are still alive (constructed {con}, destroyed {des}): {p['script']}; prog(); prog()",
                              {"path": p, "observed": o})
+            adopted = KNOWN_ADOPTED.get(p["src"]) if p["binder"] in CLONING else None
             if p["verdict"] == "safe":
                 if uaf != 0:
-                    ck.violation(name, f"[{parser}] an object was touched after its destruction (or destroyed twice) {uaf} time(s) on a path where every referrer owns it: {p['script']}; prog()",
+                    ck.violation(adopted or name, f"[{parser}] an object was touched after its destruction (or destroyed twice) {uaf} time(s) on a path where every referrer owns it: {p['script']}; prog()",
                                  {"path": p, "observed": o})
                 elif not reached:
                     ck.violation("fails:" + name, f"[{parser}] the path does not evaluate ({run1['oc']} {run1.get('why')}): {p['script']}; prog()", {"path": p, "observed": run1})
                 a = obs_asan.get(cid)
                 if a is not None and ("died" in a or a.get("uaf", 0) != 0):
-                    ck.violation("asan:" + name, f"[{parser}] under ASan/UBSan: {a.get('died') or 'touched after destruction'}: {p['script']}; prog()", {"path": p, "observed": a})
+                    ck.violation(adopted or "asan:" + name, f"[{parser}] under ASan/UBSan: {a.get('died') or 'touched after destruction'}: {p['script']}; prog()", {"path": p, "observed": a})
             elif p["verdict"] == "dangling":
                 if uaf != 0:
                     ck.violation(KNOWN_BY_SOURCE[p["src"]], f"[{parser}] a bare reference outlives its owner: the object is touched after its destruction: {p['script']}; prog()", {"path": p, "observed": o})
@@ -128,7 +135,7 @@ def run(ck, tier, seed):
     if drift:
         ck.notes.append(f"{drift} path runs the model calls dangling showed no touch after destruction in the engine (the model is conservative there; not a violation)")
     ck.exhaustive = True
-    ck.rule = ("every path of Lifetime.tla: 18 sources (6 owning, 12 bare references from std::vector<T> elements, holder members, first_of(v), ranged-for) x 11 binders "
+    ck.rule = ("every path of Lifetime.tla: 22 sources (8 owning - two of them values converted down / up a class hierarchy for a typed script parameter -, 14 bare references from std::vector<T> elements, holder members, first_of(v), ranged-for, and references / pointers to a temporary made by a user conversion) x 11 binders "
                "(none, :=, capture, bind(), push_back_ref, attribute :=, global, C++-kept shared_ptr; copy, push_back, attribute =) x 6 events (statement end, scope exit, "
                "exception, function return, owner cleared, owner re-seated), both parsers, each evaluated twice; model-safe paths also under ASan+UBSan")
     ck.sample({"path": {k: paths[0][k] for k in ("src", "binder", "event", "verdict")}, "script": paths[0]["script"]})
